@@ -189,7 +189,7 @@ class _Stats:
         self.info = Counter()
 
     def record(self, case, out):
-        self.evaluations += 1
+        self.evaluations += (out.info or {}).get("evaluations", 1) if isinstance(out.info, dict) else 1
         if out.nontrivial:
             self.nontrivial.add(case_hash(case))
         for lab in out.labels:
